@@ -460,3 +460,27 @@ Proof.
       constructor; [|exact Ft]. split; [apply str_eqb_false; exact Hc|].
       split; [intro; subst c; discriminate | apply str_eqb_false; exact E2].
 Qed.
+
+(* ---------------------------------------------------------------- consumers *)
+From RM Require Import C17.Consumers.
+Lemma consumers_join_only_safe : forall c code_file debug_file dbg_id code_id,
+  opt_hex dbg_id -> opt_hex code_id ->
+  forall r s, In (r, s) (joined_fields c code_file debug_file dbg_id code_id) -> safe_rel s.
+Proof.
+  intros c cf df id cid Hid Hcid r s H.
+  assert (L : forall k l, lookup k cf df id cid = Some l -> safe_rel (cache_rel l) /\ safe_rel (server_rel l)).
+  { intros k l E. exact (lookup_safe cf df id cid k l Hid Hcid E). }
+  destruct c as [k| |k|k|]; cbn [joined_fields] in H.
+  - destruct (lookup k cf df id cid) as [l|] eqn:E; [|contradiction]. destruct (L k l E) as [Sc Ss].
+    cbn [of_lookup] in H. destruct H as [H|[]]. inversion H; subst. exact Sc.
+  - destruct (lookup KBreakpadSym cf df id cid) as [l|] eqn:E; [|contradiction]. destruct (L _ l E) as [Sc Ss].
+    cbn [of_lookup] in H. destruct H as [H|[H|[]]]; inversion H; subst; assumption.
+  - destruct (lookup k cf df id cid) as [l|] eqn:E; [|contradiction]. destruct (L k l E) as [Sc Ss].
+    cbn [of_lookup] in H. destruct H as [H|[H|[]]]; inversion H; subst; assumption.
+  - destruct (lookup k cf df id cid) as [l|] eqn:E; [|contradiction]. destruct (L k l E) as [Sc Ss].
+    cbn [of_lookup] in H. destruct (moz_lookup l) as [l'| | |] eqn:M; try contradiction.
+    destruct (moz_safe l l' Ss M) as [Sm _].
+    destruct H as [H|[H|[]]]; inversion H; subst; assumption.
+  - destruct (code_info_breakpad_sym_lookup cf cid) as [p|] eqn:E; [|contradiction].
+    destruct H as [H|[]]. injection H as _ Hs. rewrite <- Hs. exact (code_info_safe cf cid p Hcid E).
+Qed.
